@@ -57,36 +57,58 @@ func ruleExtendOnlyRegisters(w *World, r *Report) {
 					key := fmt.Sprintf("%s.Extend: AddOptions #%d", typeShort(t), per)
 					list := c.Common().Args[len(c.Common().Args)-1]
 					bad := ""
-					sl, ok := list.(*ssa.Slice)
-					var arr *ssa.Alloc
-					if ok {
-						arr, _ = sl.X.(*ssa.Alloc)
-					}
-					if arr == nil {
-						if cst, isC := list.(*ssa.Const); !isC || !cst.IsNil() {
-							bad = "the option list is not a literal list (it is built or passed on as a value)"
+					nEl := 0
+					judge := func(v ssa.Value) {
+						nEl++
+						v = stripMakeIface(v)
+						call, isCall := v.(*ssa.Call)
+						if !isCall || call.Common().StaticCallee() == nil || !registrationOptions[call.Common().StaticCallee().Name()] {
+							bad = "option " + shortVal(v) + " is not the result of a registration constructor"
 						}
-					} else {
-						nEl := 0
-						for _, ref := range referrersOf(arr) {
-							ia, ok := ref.(*ssa.IndexAddr)
-							if !ok {
-								continue
+					}
+					// a literal list, possibly grown by append(list, more...)
+					var walk func(v ssa.Value, depth int)
+					walk = func(v ssa.Value, depth int) {
+						if depth > 6 {
+							bad = "the option list is built in too many steps to follow"
+							return
+						}
+						switch x := v.(type) {
+						case *ssa.Const:
+							if !x.IsNil() {
+								bad = "the option list is not a literal list"
 							}
-							for _, r2 := range referrersOf(ia) {
-								st, ok := r2.(*ssa.Store)
+						case *ssa.Slice:
+							arr, ok := x.X.(*ssa.Alloc)
+							if !ok {
+								bad = "the option list is not a literal list (it is built or passed on as a value)"
+								return
+							}
+							for _, ref := range referrersOf(arr) {
+								ia, ok := ref.(*ssa.IndexAddr)
 								if !ok {
 									continue
 								}
-								nEl++
-								v := stripMakeIface(st.Val)
-								call, isCall := v.(*ssa.Call)
-								if !isCall || call.Common().StaticCallee() == nil || !registrationOptions[call.Common().StaticCallee().Name()] {
-									bad = "option " + shortVal(v) + " is not the result of a registration constructor"
+								for _, r2 := range referrersOf(ia) {
+									if st, ok := r2.(*ssa.Store); ok {
+										judge(st.Val)
+									}
 								}
 							}
+						case *ssa.Call:
+							if builtinName(x.Common()) == "append" && len(x.Common().Args) == 2 {
+								walk(x.Common().Args[0], depth+1)
+								walk(x.Common().Args[1], depth+1)
+								return
+							}
+							bad = "the option list is the result of a call (it is built or passed on as a value)"
+						default:
+							bad = "the option list is not a literal list (it is built or passed on as a value)"
 						}
-						if nEl == 0 {
+					}
+					walk(list, 0)
+					if bad == "" && nEl == 0 {
+						if cst, isC := list.(*ssa.Const); !isC || !cst.IsNil() {
 							bad = "no option stored into the list could be identified"
 						}
 					}
